@@ -25,8 +25,23 @@ IsAsciiPrint(b) == b >= 32 /\ b <= 126
 
 \* raw: the bytes, nothing else
 Raw(m) == m
-\* ascii: printable ASCII unchanged, everything else a dot; newline ends the record
-Ascii(m) == [i \in 1..Len(m) |-> IF IsAsciiPrint(m[i]) THEN m[i] ELSE 46] \o <<10>>
+\* ascii: printable ASCII unchanged, everything else a dot; newline ends the record.
+\* Bytes above 0x7f: the statement ("non-printable bytes as dots") does not say whether a byte that is a
+\* printable Latin-1 character (0xa1..0xff except the soft hyphen 0xad, what strconv.IsPrint(rune(b)) says)
+\* counts as printable: such a byte may be kept or dotted; 0x80..0xa0 and 0xad are printable under no reading.
+Ascii(m) == [i \in 1..Len(m) |-> IF IsAsciiPrint(m[i]) THEN m[i] ELSE 46] \o <<10>>       \* the 7-bit reading
+Latin1Print(b) == b >= 161 /\ b # 173
+AsciiOK(m, o) ==
+  /\ Len(o) = Len(m) + 1 /\ o[Len(o)] = 10
+  /\ \A i \in 1..Len(m) : IF IsAsciiPrint(m[i]) THEN o[i] = m[i]
+                          ELSE IF Latin1Print(m[i]) THEN o[i] \in {46, m[i]}
+                          ELSE o[i] = 46
+RECURSIVE AsciiAll(_, _, _, _)
+AsciiAll(ins, k, out, off) ==      \* records are as long as their messages: no delimiter search needed
+  IF k > Len(ins) THEN off = Len(out)
+  ELSE /\ off + Len(ins[k]) + 1 <= Len(out)
+       /\ AsciiOK(ins[k], SubSeq(out, off + 1, off + Len(ins[k]) + 1))
+       /\ AsciiAll(ins, k + 1, out, off + Len(ins[k]) + 1)
 
 HexDigit(d) == IF d < 10 THEN 48 + d ELSE 87 + d          \* 0-9 a-f
 \* quoted: the canonical escape of one byte (what nanocat prints)
@@ -106,7 +121,7 @@ Concat(ss) == IF ss = <<>> THEN <<>> ELSE Head(ss) \o Concat(Tail(ss))
 OutputOK(f, ins, out) ==
   CASE f = "no" -> out = <<>>
     [] f = "raw" -> out = Concat(ins)
-    [] f = "ascii" -> out = Concat([i \in 1..Len(ins) |-> Ascii(ins[i])])
+    [] f = "ascii" -> AsciiAll(ins, 1, out, 0)
     [] f = "quoted" ->
          LET l == Lines(out) IN
          /\ l.rest = <<>>                                        \* every record is terminated
